@@ -238,6 +238,91 @@ def run_bitmap(args):
     return p
 
 
+# ------------------------------------------------------------------------------------------
+# large structures: replication counts across the 8-bit boundary of 031001 / into the 16-bit range of 031002, the largest
+# fixed repeat count, nested loops, hundreds of subsets, widest fields -- sizes at which a one-octet or recursion-depth
+# assumption in the walker would show
+def large_cases(tier):
+    """(name, descriptor list, counts for the delayed factors in order (cycled), number of subsets, compressed)"""
+    out = []
+    for c in (127, 128, 254):
+        out.append(('delayed8-%d' % c, [101000, 31001, 1001], [c], 1, False))
+        out.append(('delayed8-%d-c2' % c, [102000, 31001, 1001, 2001], [c], 2, True))
+    for c in (255, 256, 257, 1000) + ((4097,) if tier == 'thorough' else ()):
+        out.append(('delayed16-%d' % c, [101000, 31002, 1001], [c], 1, False))
+        out.append(('delayed16-%d-c2' % c, [102000, 31002, 1001, 2001], [c], 2, True))
+    out.append(('fixed-255', [101255, 1001, 2001], [], 1, False))
+    out.append(('fixed-255-c2', [102255, 1001, 5002], [], 2, True))
+    out.append(('nested-16x16', [104000, 31001, 1001, 101000, 31001, 2001], [16] * 17, 1, False))
+    out.append(('nested-16x16-c2', [104000, 31001, 1001, 101000, 31001, 2001], [16] * 17, 2, True))
+    for depth in (20,) + ((62,) if tier == 'thorough' else ()):
+        out.append(('deep-%d' % depth, [100000 + x * 1000 + 1 for x in range(depth, 0, -1)] + [1001], [], 1, False))
+        out.append(('deep-%d-c2' % depth, [100000 + x * 1000 + 1 for x in range(depth, 0, -1)] + [1001], [], 2, True))
+    out.append(('bitmap-100', [101100, 1001, 222000, 236000, 101000, 31002, 31031, 101100, 33007], [100], 1, False))
+    out.append(('wide', [201000 + 128 + 57, 1001, 201000, 205255, 206064, 54001, 208255, 1011, 208000], [], 1, False))
+    out.append(('wide-c2', [201000 + 128 + 57, 1001, 201000, 205255, 206064, 54001], [], 2, True))
+    for ns in (255, 256, 300) + ((1025,) if tier == 'thorough' else ()):
+        out.append(('subsets-%d-u' % ns, [1001, 101000, 31001, 2001, 5002], 'by-subset', ns, False))
+        out.append(('subsets-%d-c' % ns, [1001, 101000, 31001, 2001, 5002], [2], ns, True))
+    return out
+
+
+def large_build(case):
+    from mc.ref import message
+    name, descs, counts, nsub, comp = case
+    B, D = S.tables_for(33)
+    k = [0]
+
+    def chooser(info):
+        role = info.get('role')
+        if role == 'factor':
+            if counts == 'by-subset':
+                v = info['subset'] % 4
+            else:
+                v = counts[k[0] % len(counts)]
+                k[0] += 1
+            return [v] * nsub if comp else v
+        if role == 'bit':
+            return [0] * nsub if comp else 0
+        w = info['width']
+        if comp and info['kind'] == 'str' and w > 63 * 8:
+            return [S.distinct_raw(info, 0, w)] * nsub      # character increments are counted in a 6-bit field: <= 63 octets
+        if comp:
+            return [S.distinct_raw(info, s_, w) for s_ in range(nsub)]
+        return S.distinct_raw(info, info['subset'], w)
+    buf, subs, notes, nb = codec.encode(B, D, descs, nsub, comp, chooser)
+    spec = message.Spec(edition=4, descs=descs, nsub=nsub, compressed=comp)
+    b, info = message.build(spec, buf)
+    return b, spec, subs, notes
+
+
+def run_large(cases):
+    p = Partial()
+    for case in cases:
+        p.n['exec'] += 1
+        try:
+            b, spec, subs, notes = large_build(case)
+        except (codec.RefError, ValueError) as e:
+            p.n['envelope_skipped'] += 1
+            p.hist['ref:' + str(e)[:50]] += 1
+            continue
+        if notes:
+            p.n['envelope_skipped'] += 1
+            p.hist['envelope:' + notes[0][:50]] += 1
+            continue
+        for which, dec in (('plain', CC.decoder()), ('compiled', CC.compiled_decoder())):
+            st = S.impl_decode(dec, b, wire_template_data=(len(subs[0].labels) * len(subs) < 6000))
+            p.outcome((case[0].split('-')[0], which, case[4], st[0]))
+            if st[0] == 'exc':
+                p.violation('large|decode-raises:%s|%s' % (st[1], case[0].split('-')[0]), {'case': list(case), 'decoder': which}, st[2][:200])
+                continue
+            d = S.compare_subsets(st[1], subs)
+            if d:
+                p.violation('large|%s|%s' % (d[0], case[0].split('-')[0]), {'case': list(case), 'decoder': which}, d[1])
+    p.n['nodes'], p.n['edges'] = p.n['exec'] + 1, p.n['exec']
+    return p
+
+
 def replay(part, case):
     if part.startswith('bitmap'):
         s_ = case['struct']
@@ -245,6 +330,9 @@ def replay(part, case):
         return [{'sig': v['sig'], 'detail': v['detail']} for v in p.viol if v['case']['choices'] == case['choices']]
     if part.startswith('tree'):
         return CC.replay_tree(case)
+    if part == 'large':
+        p = run_large([tuple(case['case'])])
+        return [{'sig': v['sig'], 'detail': v['detail']} for v in p.viol if v['case']['decoder'] == case['decoder']]
     if part == 'tableB':
         outcome, d = sweep_case(case)
         return [{'sig': d[0], 'detail': d[1]}] if d else []
@@ -311,6 +399,12 @@ def main(tier, seed):
         use = bstructs if (tier == 'thorough' or bname == 'bitmap-u1') else bstructs[::4]
         p = merge_all(run_shards(run_bitmap, [(s_, env) for s_ in split(use, 64)]))
         rep.add_part(bname, p, bounds=dict(structures=len(use), **env))
+
+    lc = large_cases(tier)
+    p = merge_all(run_shards(run_large, [[c] for c in lc]))
+    rep.add_part('large', p, bounds={'cases': [c[0] for c in lc]},
+                 rule='replication counts 127..257 / 1000 (4097), fixed repeat 255, nested 16 x 16, a 100-bit bitmap, 64-bit and '
+                      '255-octet fields, 255..300 (1025) subsets with per-subset counts; plain and compiled decoder')
 
     from mc.checks import opmodel
     p, info = opmodel.explore('decode', tier)
